@@ -10,7 +10,19 @@ SEPS = ["/", ".", "\\", "|"]
 SEP_MULTI = "::"
 
 # attribute columns: fixed type per key so that DataFrame columns are homogeneous
-ATTR_TYPES = {"v": "int", "w": "str", "f": "bool", "age": "int", "name": "str"}
+ATTR_TYPES = {"v": "int", "w": "str", "f": "bool", "age": "int", "name": "str", "g": "float"}
+# Float attributes: the models know null | int | str | bool.  A float column is carried through the model as an
+# OPAQUE string "~<repr>" (the constructors only copy values and drop missing ones, they never compute with them);
+# on the implementation side the cell is the real float.  NaN is the missing value and is never written as "~nan".
+FLOAT_POOL = ["~0.5", "~-2.25", "~inf", "~-inf", "~1e+300"]
+
+
+def to_cell(v):
+    """case value -> the Python object handed to the library"""
+    if isinstance(v, str) and v.startswith("~"):
+        return float(v[1:])
+    return v
+
 STR_POOL = ["", "x", "a/b", "hello world", "é", "0", "a"]
 
 
@@ -36,9 +48,9 @@ def norm_val(v):
     if isinstance(v, float):
         if math.isnan(v):
             return None
-        if v.is_integer():
+        if v.is_integer() and abs(v) < 2 ** 62:
             return int(v)
-        raise ValueError("non-integral float attribute %r" % v)
+        return "~" + repr(v)
     if isinstance(v, str):
         return v
     raise TypeError("unexpected attribute value %r" % (v,))
@@ -107,6 +119,22 @@ def rej(e: Exception, named=()) -> str:
 
 
 # ------------------------------------------------------------------ data frames
+def odd_index(df, rows):
+    """the row labels of a pandas frame are not part of the input's meaning: as a function of the case (no random
+    stream involved) two thirds of the frames get a non-default, still unique index - a permutation of 0..n-1 (what
+    sort_values / sample / a filter without reset_index leave behind) or string labels"""
+    import zlib
+    n = len(df)
+    k = zlib.crc32(repr(rows).encode()) % 3
+    if n == 0 or k == 0:
+        return df
+    if k == 1:
+        df.index = [(i * 7 + 3) % n if n % 7 else (n - 1 - i) for i in range(n)]
+    else:
+        df.index = ["r%d" % (n - i) for i in range(n)]
+    return df
+
+
 def make_frame(lib: str, cols, rows, str_cols=()):
     """cols: column names; rows: list of lists (None = missing). Columns named in `str_cols` are string
     columns (path / child / parent); attribute columns are typed by ATTR_TYPES.
@@ -114,12 +142,14 @@ def make_frame(lib: str, cols, rows, str_cols=()):
     if lib in ("pd", "pdobj"):
         import pandas as pd
         if lib == "pdobj":
-            return pd.DataFrame([list(r) for r in rows], columns=list(cols), dtype=object)
-        return pd.DataFrame([list(r) for r in rows], columns=list(cols))
+            df = pd.DataFrame([[to_cell(x) for x in r] for r in rows], columns=list(cols), dtype=object)
+        else:
+            df = pd.DataFrame([[to_cell(x) for x in r] for r in rows], columns=list(cols))
+        return odd_index(df, rows)
     import polars as pl
-    tmap = {"int": pl.Int64, "str": pl.String, "bool": pl.Boolean}
+    tmap = {"int": pl.Int64, "str": pl.String, "bool": pl.Boolean, "float": pl.Float64}
     schema = {c: (pl.String if c in str_cols else tmap[ATTR_TYPES.get(c, "str")]) for c in cols}
-    return pl.DataFrame([list(r) for r in rows], schema=schema, orient="row")
+    return pl.DataFrame([[to_cell(x) for x in r] for r in rows], schema=schema, orient="row")
 
 
 def rand_attr_value(rng, key):
@@ -128,4 +158,6 @@ def rand_attr_value(rng, key):
         return rng.choice([0, 1, 2, 5, -3, 90, 12345678901])
     if t == "bool":
         return rng.random() < 0.5
+    if t == "float":
+        return rng.choice(FLOAT_POOL)
     return rng.choice(STR_POOL)
